@@ -31,6 +31,7 @@ type HarnessSpec struct {
 	Bounds    string         `json:"bounds"`
 	Tiers     []string       `json:"tiers"` // default: both
 	NoNative  bool           `json:"no_native_replay"`
+	NoSummaries []string     `json:"no_summaries"`
 	Synctest  bool           `json:"synctest"`
 	intercept map[string]string
 	pkg       *ssa.Package
@@ -56,6 +57,7 @@ type Loaded struct {
 	repo            string
 	verifDir        string
 	loadTime        time.Duration
+	noSummary       map[string]bool
 	bigMu           sync.Mutex
 	bigInits        map[*ssa.Package]*bigInitInfo
 }
@@ -168,7 +170,7 @@ func loadProgram(repo, verifDir string, pkgDirs []string) (*Loaded, map[string]m
 	prog.Build()
 	fmt.Printf("packages.Load %.1fs, ssa build %.1fs\n", tLoad.Seconds(), (time.Since(t0) - tLoad).Seconds())
 	L := &Loaded{prog: prog, pkgs: map[string]*ssa.Package{}, sizes: &types.StdSizes{WordSize: 8, MaxAlign: 8},
-		solverTimeoutMs: 60000, overlay: ov, repo: repo, verifDir: verifDir, bigInits: map[*ssa.Package]*bigInitInfo{}}
+		solverTimeoutMs: 8000, overlay: ov, repo: repo, verifDir: verifDir, bigInits: map[*ssa.Package]*bigInitInfo{}}
 	for _, p := range prog.AllPackages() {
 		L.pkgs[p.Pkg.Path()] = p
 	}
@@ -323,6 +325,10 @@ func main() {
 				fmt.Sscan(parts[1], &v)
 				params[k] = v
 			}
+		}
+		L.noSummary = map[string]bool{}
+		for _, n := range h.NoSummaries {
+			L.noSummary[n] = true
 		}
 		E := &Explorer{L: L, H: h, fn: fn, params: params, solverKind: *solver, verbose: *verbose, trace: *trace, debugForced: os.Getenv("SYMGO_DEBUG_FORCED") != ""}
 		E.maxSteps = h.MaxSteps
